@@ -136,5 +136,21 @@ pub fn scenarios(tier: Tier) -> Vec<Scenario> {
             }
         }
     }
+    // stop() gives up (its timeout) while the reducer is held with a backlog behind it: what was
+    // accepted is still reduced once the reducer gets going again.  The timeout is the scenario's
+    // doing and not a finding here.  (n < cap: the shutdown marker still fits into the queue.)
+    for (cap, n, bound) in if tier == Tier::Quick { vec![(2usize, 1u32, 2u32)] } else { vec![(2, 1, 4), (3, 2, 3), (4, 3, 2)] } {
+        let mut spec = StoreSpec::new(1, cap, Pol::Block);
+        spec.reducer_gate = true;
+        let mut main = vec![Op::Dispatch(Act::new(PLUG)), Op::Quiesce];
+        main.extend((0..n).map(|q| Op::Dispatch(Act::new(100 + q))));
+        main.extend([Op::Stop, Op::OpenGate(0, 8), Op::Quiesce]);
+        let prog = Program::new(spec).main(main);
+        v.push(scn(format!("C05/stop-timeout/cap{}n{}", cap, n), prog, bound, opts_elide(), move |r, _| {
+            let mut f = check_common(r, cap);
+            f.retain(|x| x.sig != "timeout");
+            f
+        }));
+    }
     v
 }
